@@ -142,7 +142,7 @@ POApplies(c, a, s) == /\ c.p4 \in {"valign", "pack", "sink"} /\ Len(a.nodes) >= 
 PODrift(c, a, s) ==
     IF ~POApplies(c, a, s) THEN {}
     ELSE LET G == PosGraph(a)
-             ns == Q * c.ns
+             ns == NSq(c)
              sink == IF c.p4 = "sink" THEN PO!SinkColoringX2(G, ns) ELSE [x |-> <<>>, finished |-> TRUE]
              x2 == CASE c.p4 = "valign" -> PO!VAlignX2(G, ns) [] c.p4 = "pack" -> PO!PackRightX2(G, ns) [] OTHER -> sink.x
          IN (IF sink.finished THEN {} ELSE {"L3_PlaceBlockModelDidNotFinish"})
@@ -156,7 +156,7 @@ NPDrift(c, a, s) ==
     IF ~NPApplies(c, a, s) THEN {}
     ELSE LET G == PosGraph(a)
              thor == IF c.thor < 0 THEN 28 ELSE c.thor
-             R == NSPosRun(G, Q * c.ns, 4, Q, thor)
+             R == NSPosRun(G, NSq(c), 4, Q, thor)
          IN IF R.phase # "done" THEN {"L3_NSPositionerModelDidNotFinish"}
             ELSE LET x2 == XFromRanks(G, R.rank, Q) IN
                  If(\A i \in DOMAIN s.nodes : 2 * s.nodes[i][5] = x2[i], "L3_XAsModelled_nspos")
@@ -170,7 +170,7 @@ BKDrift(c, a, s) ==
     IF ~BKApplies(c, a, s) THEN {}
     ELSE LET G == PosGraph(a)
              forced == CASE c.p4 = "bk0" -> 0 [] c.p4 = "bk1" -> 1 [] c.p4 = "bk2" -> 2 [] c.p4 = "bk3" -> 3 [] OTHER -> -1
-             x2 == BK!BKX2(G, Q * c.ns, forced)
+             x2 == BK!BKX2(G, NSq(c), forced)
          IN If(\A i \in DOMAIN s.nodes : 2 * s.nodes[i][5] = x2[i], "L3_XAsModelled_" \o c.p4)
             \cup If(\A i \in DOMAIN s.nodes : s.nodes[i][6] = PO!YOfLayer(G, Q * c.ls, s.nodes[i][3] + 1), "L3_YAsModelled")
 
@@ -247,7 +247,7 @@ Collect(c, o, s) ==
                                            [m \in 1..(Len(s.pts[k]) \div 2) |-> <<s.pts[k][2 * m - 1] + o.shift, s.pts[k][2 * m]>>]>>]
         lasts == {NodeOf(s, s.layers[ly][Len(s.layers[ly])]) : ly \in {m \in DOMAIN s.layers : s.layers[m] # <<>>}}
         right == Max({0} \cup {n[5] + n[7] : n \in lasts})
-    IN [nodes |-> o.nodes \o ns, edges |-> o.edges \o es, shift |-> o.shift + right + Q * c.ns,
+    IN [nodes |-> o.nodes \o ns, edges |-> o.edges \o es, shift |-> o.shift + right + NSq(c),
         exact |-> IF s.exact = 1 THEN o.exact ELSE 0]
 TraceCall == /\ IsEvent("Call") /\ call' = Rec /\ prev' = NoSnap /\ xacc' = 0 /\ out' = NoOut
              /\ cnt' = [cnt EXCEPT !.calls = @ + 1] /\ Final
